@@ -56,9 +56,9 @@ func genC20(r *Rng) *C20Case {
 	cs.Env = GenEnv(r.Fork(1), 0, 5)
 	g := NewGen(r.Fork(2), r.Range(4, 40))
 	if r.Chance(0.3) {
-		g.inc = []string{"inc0.html", "inc1.html"}
+		g.incArgs = []string{`"inc0.html"`, `"inc1.html"`}
 		cs.Inc = map[string][]*TNode{}
-		for _, n := range g.inc {
+		for _, n := range []string{"inc0.html", "inc1.html"} {
 			ig := NewGen(r.Fork(strSeed(n)), r.Range(2, 10))
 			cs.Inc[n] = ig.Template(cs.Env)
 		}
